@@ -650,3 +650,133 @@ def scalar_replace(fn: ast.AST, module) -> bool:
     if changed:
         ast.fix_missing_locations(fn)
     return changed
+
+
+# ---------------------------------------------------------------------------
+# clean-up after helper expansion: parallel assignments, duplicated state
+
+
+def _blocks(fn):
+    """every statement list of the function (not entering nested defs)"""
+    todo = [fn.body]
+    while todo:
+        blk = todo.pop()
+        yield blk
+        for s in blk:
+            if isinstance(s, (ast.FunctionDef, ast.AsyncFunctionDef, ast.ClassDef)):
+                continue
+            for fld in ("body", "orelse", "finalbody"):
+                b = getattr(s, fld, None)
+                if isinstance(b, list) and b and isinstance(b[0], ast.stmt):
+                    todo.append(b)
+            if isinstance(s, ast.Try):
+                for h in s.handlers:
+                    todo.append(h.body)
+            if isinstance(s, ast.Match):
+                for c in s.cases:
+                    todo.append(c.body)
+
+
+def split_parallel_assign(fn: ast.AST) -> bool:
+    """`a, b = (e1, e2)` -> `a = e1; b = e2` when no target is read by another element; `x = x` is dropped."""
+    changed = False
+    for blk in _blocks(fn):
+        i = 0
+        while i < len(blk):
+            s = blk[i]
+            if isinstance(s, ast.Assign) and len(s.targets) == 1 and isinstance(s.targets[0], ast.Tuple) and isinstance(s.value, ast.Tuple) \
+                    and len(s.targets[0].elts) == len(s.value.elts) and all(isinstance(t, ast.Name) for t in s.targets[0].elts) \
+                    and not any(isinstance(e, ast.Starred) for e in s.value.elts):
+                tn = [t.id for t in s.targets[0].elts]
+                reads = [{n.id for n in ast.walk(e) if isinstance(n, ast.Name)} for e in s.value.elts]
+                ok = all(tn[a] not in reads[b] for a in range(len(tn)) for b in range(len(tn)) if a != b)
+                if ok and len(set(tn)) == len(tn):
+                    out = []
+                    for t, e in zip(s.targets[0].elts, s.value.elts):
+                        if isinstance(e, ast.Name) and e.id == t.id:
+                            continue
+                        out.append(ast.copy_location(ast.Assign([t], e), s))
+                    blk[i : i + 1] = out or [ast.copy_location(ast.Pass(), s)]
+                    changed = True
+                    i += max(1, len(out))
+                    continue
+            if isinstance(s, ast.Assign) and len(s.targets) == 1 and isinstance(s.targets[0], ast.Name) and isinstance(s.value, ast.Name) and s.value.id == s.targets[0].id:
+                blk[i : i + 1] = [ast.copy_location(ast.Pass(), s)] if len(blk) == 1 else []
+                changed = True
+                continue
+            i += 1
+    if changed:
+        ast.fix_missing_locations(fn)
+    return changed
+
+
+def merge_twin_locals(fn: ast.AST) -> bool:
+    """Two locals that carry the same value (state duplicated when a loop was split into a producer and a consumer):
+    `x = y` once, and every other assignment of x has the same right-hand side as an assignment of y in the same block.
+    x is renamed to y.  Only plain-name assignments count; anything else leaves both alone."""
+    params = {a.arg for a in ast.walk(fn) if isinstance(a, ast.arg)}
+    asg: dict[str, list] = {}
+    other_store = set()
+    for bi, blk in enumerate(_blocks(fn)):
+        for si, s in enumerate(blk):
+            if isinstance(s, ast.Assign) and len(s.targets) == 1 and isinstance(s.targets[0], ast.Name):
+                asg.setdefault(s.targets[0].id, []).append((id(blk), si, s))
+    for n in ast.walk(fn):
+        if isinstance(n, ast.Name) and isinstance(n.ctx, (ast.Store, ast.Del)):
+            pass
+    plain = {id(s.targets[0]) for lst in asg.values() for _, _, s in lst}
+    for n in ast.walk(fn):
+        if isinstance(n, ast.Name) and isinstance(n.ctx, (ast.Store, ast.Del)) and id(n) not in plain:
+            other_store.add(n.id)
+    ren = {}
+    for x, xs in asg.items():
+        if x in params or x in other_store:
+            continue
+        copies = [s for _, _, s in xs if isinstance(s.value, ast.Name) and s.value.id != x]
+        if len(copies) != 1:
+            continue
+        y = copies[0].value.id
+        if y in params or y in other_store or y not in asg or y in ren or x in ren.values():
+            continue
+        ys = asg[y]
+        ok = True
+        for b, i, s in xs:
+            if s is copies[0]:
+                continue
+            if not any(b == b2 and ast.unparse(s2.value) == ast.unparse(s.value) for b2, _, s2 in ys):
+                ok = False
+        # every assignment of y that x does not mirror must sit in the block of the copy, before it
+        cb = [(b, i) for b, i, s in xs if s is copies[0]][0]
+        for b2, i2, s2 in ys:
+            mirrored = any(b == b2 and s is not copies[0] and ast.unparse(s.value) == ast.unparse(s2.value) for b, _, s in xs)
+            if not mirrored and not (b2 == cb[0] and i2 < cb[1]):
+                ok = False
+        if ok and len(xs) >= 2:
+            ren[x] = y
+    if not ren:
+        return False
+    for n in ast.walk(fn):
+        if isinstance(n, ast.Name) and n.id in ren:
+            n.id = ren[n.id]
+    # the mirrored assignments are now duplicates `y = E; y = E` / `y = y`
+    for blk in _blocks(fn):
+        seen = set()
+        i = 0
+        while i < len(blk):
+            s = blk[i]
+            if isinstance(s, ast.Assign) and len(s.targets) == 1 and isinstance(s.targets[0], ast.Name) and s.targets[0].id in ren.values():
+                if isinstance(s.value, ast.Name) and s.value.id == s.targets[0].id:
+                    del blk[i]
+                    continue
+                k = (s.targets[0].id, ast.unparse(s.value))
+                if k in seen and not any(isinstance(c, ast.Call) for c in ast.walk(s.value)):
+                    del blk[i]
+                    continue
+                seen.add(k)
+            elif not isinstance(s, (ast.Assign, ast.Expr)):
+                seen.clear()
+            i += 1
+        if not blk:
+            blk.append(ast.Pass())
+    ast.fix_missing_locations(fn)
+    return True
